@@ -5,6 +5,7 @@
 //	ACTION := (env POINT) | (kill) | (term) | (drop clean|abrupt [heal]) | (destroy N) | (stubborn silent|killing)
 //	        | (park N destroy|cleanup) (env configured|running|standby)… (unpark)
 //	        | (hide) | (mute) | (heal)      what the master can report in answer to a RECONCILE, see world.go
+//	        | (sparse none|exec|agent|both) | (nudge)   which OPTIONAL fields the master's own status updates lack; the master volunteers its view
 //	POINT  := launching | configuring | configured | starting | running | stopping | standby | teardown | destroyed
 //	obs    := (EV…)  see world.go:observation and lean/Driver/C18.lean
 package c18
@@ -17,6 +18,7 @@ import (
 	"time"
 
 	"verifharness/fw"
+	_ "verifharness/idfacts" // Gen/TaskIdFacts.lean: who writes a task's agentId / executorId, and under which nil tests
 	"verifharness/rng"
 	"verifharness/sim"
 	"verifharness/sx"
@@ -330,6 +332,103 @@ func randomResub(r *rng.R) fw.Case {
 	return cs(s, append(tags, fmt.Sprintf("rounds:%d", nd+1))...)
 }
 
+// sparses: reconciliation answers whose OPTIONAL fields are absent. The answer a master builds to a RECONCILE comes from its
+// own task record: executor_id and agent_id are optional in mesos.TaskStatus and a master-built update need not carry them
+// (the AliECS executor's always do). Since the roster test, an answer about a task of the core's own live environments goes to
+// updateTaskStatus, which copies the ids into the roster task — and Task.isLocked(), what every sweep of unowned tasks
+// reads, needs both. The property's second half ("and only that"; "reconciliation answers … never cause tasks owned by a live
+// environment to be killed") therefore quantifies over what the answers OMIT too: env up → (sparse …) → re-subscription(s) /
+// (nudge) → LATER a sweep: the creation of another environment (pre-deployment Cleanup), CleanupTasks ((park N cleanup)), the
+// owner's own destroy, shutdown. At every quiet point every task a listed environment references must be locked
+// (Spec.C18.heldLocked), and no KILL may hit one (ownedSpared, "owned" = referenced by a listed environment).
+func sparses() []fw.Case {
+	var out []fw.Case
+	n := 0
+	add := func(kv0 bool, tags []string, acts ...action) {
+		n++
+		out = append(out, cs(mk(1+n%2, kv0, acts...), append([]string{"sparse"}, tags...)...))
+	}
+	env := func(p string) action { return action{"env", p} }
+	sp := func(o string) action { return action{"sparse", o} }
+	drop := func(k string) action { return action{"drop", k} }
+	nudge, kill, term, hide := action{"nudge", ""}, action{"kill", ""}, action{"term", ""}, action{"hide", ""}
+	// a reconnection with sparse answers, LATER another environment is created (its pre-deployment Cleanup sweeps)
+	add(false, []string{"omit:exec", "then:create"}, env("running"), sp("exec"), drop("clean"), env("configured"))
+	add(false, []string{"omit:agent", "then:create"}, env("configured"), sp("agent"), drop("abrupt"), env("running"))
+	add(false, []string{"omit:both", "rounds:3", "then:create"}, env("running"), sp("both"), drop("clean"), drop("abrupt"), env("configured"))
+	add(true, []string{"omit:exec", "kv0", "then:create"}, env("standby"), sp("exec"), drop("abrupt"), env("configured"))
+	// … LATER CleanupTasks (the kept tasks of ANOTHER environment are swept: the live one's must be spared), then a further round
+	add(false, []string{"omit:both", "then:cleanup"}, env("running"), env("configured"), sp("both"), drop("abrupt"),
+		action{"park", "1 cleanup"}, action{"unpark", ""}, drop("clean"))
+	// … LATER the owner itself destroys the environment (release + KILL must still work), and a new one is created
+	add(false, []string{"omit:exec", "then:destroy"}, env("standby"), sp("exec"), drop("clean"), env("configured"), action{"destroy", "0"}, drop("abrupt"))
+	// … LATER the core is shut down
+	add(false, []string{"omit:exec", "then:term"}, env("running"), sp("exec"), drop("clean"), term)
+	// the master volunteers its (sparse) view without any re-subscription
+	add(false, []string{"omit:both", "nudge", "then:create"}, env("running"), sp("both"), nudge, env("configured"))
+	add(false, []string{"omit:exec", "nudge", "healed", "then:create"}, env("configured"), sp("exec"), nudge, drop("clean"), sp("none"), drop("abrupt"), env("running"))
+	// a restart: the answers about the ORPHANS are sparse too (they are killed all the same), then the new life's own
+	// environment meets sparse answers after a reconnection
+	add(false, []string{"omit:both", "lives:2", "then:create"}, env("running"), sp("both"), kill, env("configured"), drop("clean"), env("running"))
+	// the core's own tasks left out of one answer, and reported — sparsely — by the next
+	add(false, []string{"omit:exec", "own-hidden", "then:create"}, env("running"), hide, sp("exec"), drop("clean"), drop("abrupt heal"), env("configured"))
+	// complete answers again (control: the same script with nothing omitted)
+	add(false, []string{"omit:none", "then:create"}, env("running"), sp("none"), drop("clean"), env("configured"))
+	return out
+}
+
+// randomSparse: 1-2 settled environments, (sparse X), 1-3 of {stream drop, (nudge)} — sometimes healed in between —, then a
+// consumer of "locked": another environment, CleanupTasks over a kept environment, the owner's destroy, SIGTERM or SIGKILL,
+// and often one more reconnection.
+func randomSparse(r *rng.R) fw.Case {
+	s := &scenario{k: r.Range(1, 3), kv0: r.P(1, 8)}
+	live := settledPoints[:3]
+	envs := 1
+	s.acts = append(s.acts, action{"env", rng.Pick(r, live)})
+	if r.P(1, 3) {
+		s.acts = append(s.acts, action{"env", rng.Pick(r, live)})
+		envs++
+	}
+	om := rng.Pick(r, []string{"exec", "exec", "agent", "both"})
+	tags := []string{"random", "sparse", "omit:" + om}
+	s.acts = append(s.acts, action{"sparse", om})
+	for i, n := 0, r.Range(1, 3); i < n; i++ {
+		if r.P(1, 4) {
+			s.acts = append(s.acts, action{"nudge", ""})
+			tags = append(tags, "nudge")
+		} else {
+			s.acts = append(s.acts, action{"drop", rng.Pick(r, []string{"clean", "abrupt"})})
+		}
+		if i == 0 && n > 1 && r.P(1, 4) {
+			s.acts = append(s.acts, action{"sparse", "none"})
+			tags = append(tags, "healed")
+		}
+	}
+	switch r.N(6) {
+	case 0, 1, 2:
+		s.acts = append(s.acts, action{"env", rng.Pick(r, live)})
+		tags = append(tags, "then:create")
+	case 3:
+		if envs > 1 {
+			s.acts = append(s.acts, action{"park", "0 cleanup"}, action{"unpark", ""})
+			tags = append(tags, "then:cleanup")
+		} else {
+			s.acts = append(s.acts, action{"destroy", "0"}, action{"env", rng.Pick(r, live)})
+			tags = append(tags, "then:destroy")
+		}
+	case 4:
+		s.acts = append(s.acts, action{"term", ""})
+		tags = append(tags, "then:term")
+	default:
+		s.acts = append(s.acts, action{"kill", ""}, action{"env", rng.Pick(r, live)})
+		tags = append(tags, "lives:2")
+	}
+	if r.P(1, 2) {
+		s.acts = append(s.acts, action{"drop", rng.Pick(r, []string{"clean", "abrupt"})})
+	}
+	return cs(s, tags...)
+}
+
 var settledPoints = []string{"configured", "running", "standby", "destroyed"}
 var inflightPoints = []string{"launching", "configuring", "starting", "stopping", "teardown"}
 
@@ -382,9 +481,9 @@ func randomScenario(r *rng.R) fw.Case {
 
 func generate(tier string, r *rng.R) []fw.Case {
 	out := grid()
-	n, ns, no, nr := 12, 6, 4, 6
+	n, ns, no, nr, nsp := 12, 6, 4, 6, 6
 	if tier == "thorough" {
-		n, ns, no, nr = 320, 80, 60, 80
+		n, ns, no, nr, nsp = 320, 80, 60, 80, 80
 	}
 	for i := 0; i < n; i++ {
 		out = append(out, randomScenario(r.Fork()))
@@ -401,6 +500,10 @@ func generate(tier string, r *rng.R) []fw.Case {
 	out = append(out, resubs()...)
 	for i := 0; i < nr; i++ {
 		out = append(out, randomResub(r.Fork()))
+	}
+	out = append(out, sparses()...)
+	for i := 0; i < nsp; i++ {
+		out = append(out, randomSparse(r.Fork()))
 	}
 	return out
 }
@@ -419,6 +522,9 @@ func search(r *rng.R) []fw.Case {
 	for i := 0; i < 30; i++ {
 		out = append(out, randomResub(r.Fork()))
 	}
+	for i := 0; i < 30; i++ {
+		out = append(out, randomSparse(r.Fork()))
+	}
 	return out
 }
 
@@ -435,7 +541,7 @@ func runImpl(input string) (string, error) {
 	return obs, err
 }
 
-var reRealRecon = regexp.MustCompile(`\(upd t\d+ \w+ recon 1\)`)
+var reRealRecon = regexp.MustCompile(`\(upd t\d+ \w+ (recon|vol) 1[ )]`)
 
 // non-trivial: the master answered a reconciliation about at least one real task
 // (so there was something to kill or to spare)
@@ -491,7 +597,10 @@ func init() {
 			"tasks out until (heal); (mute): RECONCILE calls are lost until (heal); (drop … heal): healed while the stream is down — so that an orphan the first answer of a new life (or of two " +
 			"lives) did not show is shown by the answer after a later re-subscription (rounds:2|3, partial answers, new life owning an environment, stubborn, the core's own tasks hidden and shown " +
 			"again), reconnections of a core in its first life next to live environments (first-life), and the late class (heal without a later subscription; every mute script: open finding " +
-			"late_orphan_never_reconciled): 18 fixed scripts + 6 corpus lines + 6 (thorough 80) random ones. A re-subscription that presents another framework id than the one the core was given ends the " +
+			"late_orphan_never_reconciled): 18 fixed scripts + 6 corpus lines + 6 (thorough 80) random ones. SPARSE ANSWERS (tag sparse): (sparse exec|agent|both) — the status updates the MASTER builds " +
+			"(its answers to a RECONCILE, the reconciliation updates it volunteers: (nudge)) lack the OPTIONAL fields executor_id / agent_id / both, as a master-built update may — with 1-2 live environments, followed by 1-3 re-subscriptions / nudges and LATER by a sweep " +
+			"of unowned tasks: the creation of another environment (pre-deployment Cleanup), CleanupTasks over a kept environment, the owner's own destroy, SIGTERM, or a restart (sparse answers about orphans): 12 fixed scripts + 6 (thorough 80) random ones; every snapshot also lists, per " +
+			"environment nobody asked to destroy, the tasks its roles reference that are NOT locked (a state seen twice in a row). A re-subscription that presents another framework id than the one the core was given ends the " +
 			"script (observed, not a deadline). Every disturbance is bracketed by barrier-ordered quiet points " +
 			"(GetTasks, GetEnvironments with the tasks every environment holds, mesos_fid, master's live rows). non-trivial = the master answered a reconciliation about at least one real task; distinct by input text",
 		Shrink:     shrink,
@@ -499,7 +608,7 @@ func init() {
 		Workers:    8,
 		Exhaustive: func(string) bool { return false },
 		TrustedBase: []string{
-			"harness/sim (whole-core simulator: Mesos master/agents/executors, Consul KV, workflow repository; core child through core.RunForVerif) + sim.InjectUpdate (added for the barrier) + sim.HoldCalls (keeps the HTTP answer of chosen calls back: a call in flight) + sim.HideFromReconcile / SetReconcileSilent (implicit reconciliation leaves chosen tasks out / RECONCILE calls go unanswered)",
+			"harness/sim (whole-core simulator: Mesos master/agents/executors, Consul KV, workflow repository; core child through core.RunForVerif) + sim.InjectUpdate (added for the barrier) + sim.HoldCalls (keeps the HTTP answer of chosen calls back: a call in flight) + sim.HideFromReconcile / SetReconcileSilent (implicit reconciliation leaves chosen tasks out / RECONCILE calls go unanswered) + sim.SetReconcileOmit / InjectTaskStatus (master-built updates lack optional identity fields)",
 			"harness/props/c18/world.go: scripts, barrier-based quiescence, projection of the master trace (tasks, environments, framework ids renamed by first appearance)",
 			"lean/Driver/C18.lean: the monitor that replays the observed trace as a history of Model/Reconcile.lean and rebuilds the log the Spec is evaluated on",
 			"go/ast fact extraction harness/props/c18/facts.go",
